@@ -501,6 +501,11 @@ func genInPlace(b *builder, c *corpus, nSites int) {
 				break
 			}
 		}
+		if b.r.chance(0.6) {
+			// ... and rely on defaults (derived ones included) for some of the
+			// others: the attempt evaluates default initialisers before it fails
+			cs = dropDefaulted(b.r, p, cs)
+		}
 		for k := 0; k < 1+b.r.intn(2); k++ {
 			ref := b.add(t, proto.Op{Kind: proto.OpResolveInPlace, Mod: m, Consts: cs})
 			if missingRequired(p, cs) {
@@ -508,11 +513,37 @@ func genInPlace(b *builder, c *corpus, nSites int) {
 			}
 		}
 	}
-	b.add(t, proto.Op{Kind: proto.OpResolveInPlace, Mod: m, Consts: full()})
+	retry := full()
+	if b.r.chance(0.5) {
+		retry = dropDefaulted(b.r, p, retry)
+	}
+	b.add(t, proto.Op{Kind: proto.OpResolveInPlace, Mod: m, Consts: retry})
 	for i := 0; i < 1+b.r.intn(3); i++ {
 		b.add(t, b.backendOp(pick(b.r, backendKinds), m))
 	}
 	b.drawFaults(nSites, false)
+}
+
+// dropDefaulted removes, each with probability 1/2, the values of overrides
+// that have a default initialiser (addressed by name or by id).
+func dropDefaulted(r *rng, p *program, cs []proto.Const) []proto.Const {
+	defaulted := map[string]bool{}
+	for _, ov := range p.info.Overrides {
+		if ov.HasDefault {
+			defaulted[ov.Name] = true
+			if ov.ID >= 0 {
+				defaulted[fmt.Sprint(ov.ID)] = true
+			}
+		}
+	}
+	out := make([]proto.Const, 0, len(cs))
+	for _, c := range cs {
+		if defaulted[c.Key] && r.chance(0.5) {
+			continue
+		}
+		out = append(out, c)
+	}
+	return out
 }
 
 var familiesC14 = []family{
